@@ -8,7 +8,7 @@ Set Implicit Arguments.
 Section Tab.
   Variable S : Type.
   Variable O : Ops S.
-  Variable out : list S -> val.
+  Let out (l : list S) : gval S := GQ l.
   Let op1 (p : P1 S) := out (p1_list p).  Let op2 (p : P2 S) := out (p2_list p).  Let op3 (p : P3 S) := out (p3_list p).
   Let ov1 (v : V1 S) := out (v1_list v).  Let ov2 (v : V2 S) := out (v2_list v).  Let ov3 (v : V3 S) := out (v3_list v).
   Let ov4 (v : V4 S) := out (v4_list v).
@@ -28,93 +28,109 @@ Section Tab.
                       end
                end in go (List.length l) l.
 
-  Definition tab_c12 : list (string * (list S -> val)) := [
-    ("p1_add_v", run2 r1 v1 (fun p v => op1 (p1_add_v O p v)));
-    ("p2_add_v", run2 r2 v2 (fun p v => op2 (p2_add_v O p v)));
-    ("p3_add_v", run2 r3 v3 (fun p v => op3 (p3_add_v O p v)));
-    ("p1_sub_v", run2 r1 v1 (fun p v => op1 (p1_sub_v O p v)));
-    ("p2_sub_v", run2 r2 v2 (fun p v => op2 (p2_sub_v O p v)));
-    ("p3_sub_v", run2 r3 v3 (fun p v => op3 (p3_sub_v O p v)));
-    ("p1_sub_p", run2 r1 r1 (fun p q => ov1 (p1_sub_p O p q)));
-    ("p2_sub_p", run2 r2 r2 (fun p q => ov2 (p2_sub_p O p q)));
-    ("p3_sub_p", run2 r3 r3 (fun p q => ov3 (p3_sub_p O p q)));
-    ("p1_mul_s", run2 r1 rs (fun p s => op1 (p1_mul_s O p s)));
-    ("p2_mul_s", run2 r2 rs (fun p s => op2 (p2_mul_s O p s)));
-    ("p3_mul_s", run2 r3 rs (fun p s => op3 (p3_mul_s O p s)));
-    ("p1_div_s", run2 r1 rs (fun p s => op1 (p1_div_s O p s)));
-    ("p2_div_s", run2 r2 rs (fun p s => op2 (p2_div_s O p s)));
-    ("p3_div_s", run2 r3 rs (fun p s => op3 (p3_div_s O p s)));
-    ("p1_rem_s", run2 r1 rs (fun p s => op1 (p1_rem_s O p s)));
-    ("p2_rem_s", run2 r2 rs (fun p s => op2 (p2_rem_s O p s)));
-    ("p3_rem_s", run2 r3 rs (fun p s => op3 (p3_rem_s O p s)));
-    ("p1_add_ew", run2 r1 r1 (fun p q => op1 (p1_add_ew O p q)));
-    ("p2_add_ew", run2 r2 r2 (fun p q => op2 (p2_add_ew O p q)));
-    ("p3_add_ew", run2 r3 r3 (fun p q => op3 (p3_add_ew O p q)));
-    ("p1_sub_ew", run2 r1 r1 (fun p q => op1 (p1_sub_ew O p q)));
-    ("p2_sub_ew", run2 r2 r2 (fun p q => op2 (p2_sub_ew O p q)));
-    ("p3_sub_ew", run2 r3 r3 (fun p q => op3 (p3_sub_ew O p q)));
-    ("p1_mul_ew", run2 r1 r1 (fun p q => op1 (p1_mul_ew O p q)));
-    ("p2_mul_ew", run2 r2 r2 (fun p q => op2 (p2_mul_ew O p q)));
-    ("p3_mul_ew", run2 r3 r3 (fun p q => op3 (p3_mul_ew O p q)));
-    ("p1_div_ew", run2 r1 r1 (fun p q => op1 (p1_div_ew O p q)));
-    ("p2_div_ew", run2 r2 r2 (fun p q => op2 (p2_div_ew O p q)));
-    ("p3_div_ew", run2 r3 r3 (fun p q => op3 (p3_div_ew O p q)));
-    ("p1_rem_ew", run2 r1 r1 (fun p q => op1 (p1_rem_ew O p q)));
-    ("p2_rem_ew", run2 r2 r2 (fun p q => op2 (p2_rem_ew O p q)));
-    ("p3_rem_ew", run2 r3 r3 (fun p q => op3 (p3_rem_ew O p q)));
-    ("p1_add_ews", run2 r1 rs (fun p s => op1 (p1_add_ews O p s)));
-    ("p2_add_ews", run2 r2 rs (fun p s => op2 (p2_add_ews O p s)));
-    ("p3_add_ews", run2 r3 rs (fun p s => op3 (p3_add_ews O p s)));
-    ("p1_sub_ews", run2 r1 rs (fun p s => op1 (p1_sub_ews O p s)));
-    ("p2_sub_ews", run2 r2 rs (fun p s => op2 (p2_sub_ews O p s)));
-    ("p3_sub_ews", run2 r3 rs (fun p s => op3 (p3_sub_ews O p s)));
-    ("p1_mul_ews", run2 r1 rs (fun p s => op1 (p1_mul_ews O p s)));
-    ("p2_mul_ews", run2 r2 rs (fun p s => op2 (p2_mul_ews O p s)));
-    ("p3_mul_ews", run2 r3 rs (fun p s => op3 (p3_mul_ews O p s)));
-    ("p1_div_ews", run2 r1 rs (fun p s => op1 (p1_div_ews O p s)));
-    ("p2_div_ews", run2 r2 rs (fun p s => op2 (p2_div_ews O p s)));
-    ("p3_div_ews", run2 r3 rs (fun p s => op3 (p3_div_ews O p s)));
-    ("p1_rem_ews", run2 r1 rs (fun p s => op1 (p1_rem_ews O p s)));
-    ("p2_rem_ews", run2 r2 rs (fun p s => op2 (p2_rem_ews O p s)));
-    ("p3_rem_ews", run2 r3 rs (fun p s => op3 (p3_rem_ews O p s)));
-    ("p1_origin", run0 (op1 (p1_origin O)));
-    ("p2_origin", run0 (op2 (p2_origin O)));
-    ("p3_origin", run0 (op3 (p3_origin O)));
-    ("p1_from_vec", run1 v1 (fun v => op1 (p1_from_vec v)));
-    ("p2_from_vec", run1 v2 (fun v => op2 (p2_from_vec v)));
-    ("p3_from_vec", run1 v3 (fun v => op3 (p3_from_vec v)));
-    ("p1_to_vec", run1 r1 (fun p => ov1 (p1_to_vec p)));
-    ("p2_to_vec", run1 r2 (fun p => ov2 (p2_to_vec p)));
-    ("p3_to_vec", run1 r3 (fun p => ov3 (p3_to_vec p)));
-    ("p1_dot", run2 r1 v1 (fun p v => os (p1_dot O p v)));
-    ("p2_dot", run2 r2 v2 (fun p v => os (p2_dot O p v)));
-    ("p3_dot", run2 r3 v3 (fun p v => os (p3_dot O p v)));
-    ("p1_sum", run1 r1 (fun p => os (p1_sum p)));
-    ("p2_sum", run1 r2 (fun p => os (p2_sum O p)));
-    ("p3_sum", run1 r3 (fun p => os (p3_sum O p)));
-    ("p1_product", run1 r1 (fun p => os (p1_product p)));
-    ("p2_product", run1 r2 (fun p => os (p2_product O p)));
-    ("p3_product", run1 r3 (fun p => os (p3_product O p)));
-    ("p1_from_value", run1 rs (fun s => op1 (p1_from_value s)));
-    ("p2_from_value", run1 rs (fun s => op2 (p2_from_value s)));
-    ("p3_from_value", run1 rs (fun s => op3 (p3_from_value s)));
-    ("p1_midpoint", run2 r1 r1 (fun p q => op1 (p1_midpoint O p q)));
-    ("p2_midpoint", run2 r2 r2 (fun p q => op2 (p2_midpoint O p q)));
-    ("p3_midpoint", run2 r3 r3 (fun p q => op3 (p3_midpoint O p q)));
-    ("p1_centroid", run1 (all r1) (fun ps => op1 (p1_centroid_len O ps)));
-    ("p2_centroid", run1 (all r2) (fun ps => op2 (p2_centroid_len O ps)));
-    ("p3_centroid", run1 (all r3) (fun ps => op3 (p3_centroid_len O ps)));
-    ("p1_distance2", run2 r1 r1 (fun p q => os (p1_distance2 O p q)));
-    ("p2_distance2", run2 r2 r2 (fun p q => os (p2_distance2 O p q)));
-    ("p3_distance2", run2 r3 r3 (fun p q => os (p3_distance2 O p q)));
-    ("p3_to_homogeneous", run1 r3 (fun p => ov4 (p3_to_homogeneous O p)));
-    ("p3_from_homogeneous", run1 v4 (fun v => op3 (p3_from_homogeneous O v)))
+  Definition tab_c12 : list (string * (list S -> gval S)) := [
+    (* compound-assignment forms (+=, -=, *=, /=, %=): separately written macro arms, same value *)
+    ("p1_add_v_assign", grun2 r1 v1 (fun p v => op1 (p1_add_v O p v)));
+    ("p2_add_v_assign", grun2 r2 v2 (fun p v => op2 (p2_add_v O p v)));
+    ("p3_add_v_assign", grun2 r3 v3 (fun p v => op3 (p3_add_v O p v)));
+    ("p1_sub_v_assign", grun2 r1 v1 (fun p v => op1 (p1_sub_v O p v)));
+    ("p2_sub_v_assign", grun2 r2 v2 (fun p v => op2 (p2_sub_v O p v)));
+    ("p3_sub_v_assign", grun2 r3 v3 (fun p v => op3 (p3_sub_v O p v)));
+    ("p1_mul_s_assign", grun2 r1 rs (fun p s => op1 (p1_mul_s O p s)));
+    ("p2_mul_s_assign", grun2 r2 rs (fun p s => op2 (p2_mul_s O p s)));
+    ("p3_mul_s_assign", grun2 r3 rs (fun p s => op3 (p3_mul_s O p s)));
+    ("p1_div_s_assign", grun2 r1 rs (fun p s => op1 (p1_div_s O p s)));
+    ("p2_div_s_assign", grun2 r2 rs (fun p s => op2 (p2_div_s O p s)));
+    ("p3_div_s_assign", grun2 r3 rs (fun p s => op3 (p3_div_s O p s)));
+    ("p1_rem_s_assign", grun2 r1 rs (fun p s => op1 (p1_rem_s O p s)));
+    ("p2_rem_s_assign", grun2 r2 rs (fun p s => op2 (p2_rem_s O p s)));
+    ("p3_rem_s_assign", grun2 r3 rs (fun p s => op3 (p3_rem_s O p s)));
+    ("p1_add_v", grun2 r1 v1 (fun p v => op1 (p1_add_v O p v)));
+    ("p2_add_v", grun2 r2 v2 (fun p v => op2 (p2_add_v O p v)));
+    ("p3_add_v", grun2 r3 v3 (fun p v => op3 (p3_add_v O p v)));
+    ("p1_sub_v", grun2 r1 v1 (fun p v => op1 (p1_sub_v O p v)));
+    ("p2_sub_v", grun2 r2 v2 (fun p v => op2 (p2_sub_v O p v)));
+    ("p3_sub_v", grun2 r3 v3 (fun p v => op3 (p3_sub_v O p v)));
+    ("p1_sub_p", grun2 r1 r1 (fun p q => ov1 (p1_sub_p O p q)));
+    ("p2_sub_p", grun2 r2 r2 (fun p q => ov2 (p2_sub_p O p q)));
+    ("p3_sub_p", grun2 r3 r3 (fun p q => ov3 (p3_sub_p O p q)));
+    ("p1_mul_s", grun2 r1 rs (fun p s => op1 (p1_mul_s O p s)));
+    ("p2_mul_s", grun2 r2 rs (fun p s => op2 (p2_mul_s O p s)));
+    ("p3_mul_s", grun2 r3 rs (fun p s => op3 (p3_mul_s O p s)));
+    ("p1_div_s", grun2 r1 rs (fun p s => op1 (p1_div_s O p s)));
+    ("p2_div_s", grun2 r2 rs (fun p s => op2 (p2_div_s O p s)));
+    ("p3_div_s", grun2 r3 rs (fun p s => op3 (p3_div_s O p s)));
+    ("p1_rem_s", grun2 r1 rs (fun p s => op1 (p1_rem_s O p s)));
+    ("p2_rem_s", grun2 r2 rs (fun p s => op2 (p2_rem_s O p s)));
+    ("p3_rem_s", grun2 r3 rs (fun p s => op3 (p3_rem_s O p s)));
+    ("p1_add_ew", grun2 r1 r1 (fun p q => op1 (p1_add_ew O p q)));
+    ("p2_add_ew", grun2 r2 r2 (fun p q => op2 (p2_add_ew O p q)));
+    ("p3_add_ew", grun2 r3 r3 (fun p q => op3 (p3_add_ew O p q)));
+    ("p1_sub_ew", grun2 r1 r1 (fun p q => op1 (p1_sub_ew O p q)));
+    ("p2_sub_ew", grun2 r2 r2 (fun p q => op2 (p2_sub_ew O p q)));
+    ("p3_sub_ew", grun2 r3 r3 (fun p q => op3 (p3_sub_ew O p q)));
+    ("p1_mul_ew", grun2 r1 r1 (fun p q => op1 (p1_mul_ew O p q)));
+    ("p2_mul_ew", grun2 r2 r2 (fun p q => op2 (p2_mul_ew O p q)));
+    ("p3_mul_ew", grun2 r3 r3 (fun p q => op3 (p3_mul_ew O p q)));
+    ("p1_div_ew", grun2 r1 r1 (fun p q => op1 (p1_div_ew O p q)));
+    ("p2_div_ew", grun2 r2 r2 (fun p q => op2 (p2_div_ew O p q)));
+    ("p3_div_ew", grun2 r3 r3 (fun p q => op3 (p3_div_ew O p q)));
+    ("p1_rem_ew", grun2 r1 r1 (fun p q => op1 (p1_rem_ew O p q)));
+    ("p2_rem_ew", grun2 r2 r2 (fun p q => op2 (p2_rem_ew O p q)));
+    ("p3_rem_ew", grun2 r3 r3 (fun p q => op3 (p3_rem_ew O p q)));
+    ("p1_add_ews", grun2 r1 rs (fun p s => op1 (p1_add_ews O p s)));
+    ("p2_add_ews", grun2 r2 rs (fun p s => op2 (p2_add_ews O p s)));
+    ("p3_add_ews", grun2 r3 rs (fun p s => op3 (p3_add_ews O p s)));
+    ("p1_sub_ews", grun2 r1 rs (fun p s => op1 (p1_sub_ews O p s)));
+    ("p2_sub_ews", grun2 r2 rs (fun p s => op2 (p2_sub_ews O p s)));
+    ("p3_sub_ews", grun2 r3 rs (fun p s => op3 (p3_sub_ews O p s)));
+    ("p1_mul_ews", grun2 r1 rs (fun p s => op1 (p1_mul_ews O p s)));
+    ("p2_mul_ews", grun2 r2 rs (fun p s => op2 (p2_mul_ews O p s)));
+    ("p3_mul_ews", grun2 r3 rs (fun p s => op3 (p3_mul_ews O p s)));
+    ("p1_div_ews", grun2 r1 rs (fun p s => op1 (p1_div_ews O p s)));
+    ("p2_div_ews", grun2 r2 rs (fun p s => op2 (p2_div_ews O p s)));
+    ("p3_div_ews", grun2 r3 rs (fun p s => op3 (p3_div_ews O p s)));
+    ("p1_rem_ews", grun2 r1 rs (fun p s => op1 (p1_rem_ews O p s)));
+    ("p2_rem_ews", grun2 r2 rs (fun p s => op2 (p2_rem_ews O p s)));
+    ("p3_rem_ews", grun2 r3 rs (fun p s => op3 (p3_rem_ews O p s)));
+    ("p1_origin", grun0 (op1 (p1_origin O)));
+    ("p2_origin", grun0 (op2 (p2_origin O)));
+    ("p3_origin", grun0 (op3 (p3_origin O)));
+    ("p1_from_vec", grun1 v1 (fun v => op1 (p1_from_vec v)));
+    ("p2_from_vec", grun1 v2 (fun v => op2 (p2_from_vec v)));
+    ("p3_from_vec", grun1 v3 (fun v => op3 (p3_from_vec v)));
+    ("p1_to_vec", grun1 r1 (fun p => ov1 (p1_to_vec p)));
+    ("p2_to_vec", grun1 r2 (fun p => ov2 (p2_to_vec p)));
+    ("p3_to_vec", grun1 r3 (fun p => ov3 (p3_to_vec p)));
+    ("p1_dot", grun2 r1 v1 (fun p v => os (p1_dot O p v)));
+    ("p2_dot", grun2 r2 v2 (fun p v => os (p2_dot O p v)));
+    ("p3_dot", grun2 r3 v3 (fun p v => os (p3_dot O p v)));
+    ("p1_sum", grun1 r1 (fun p => os (p1_sum p)));
+    ("p2_sum", grun1 r2 (fun p => os (p2_sum O p)));
+    ("p3_sum", grun1 r3 (fun p => os (p3_sum O p)));
+    ("p1_product", grun1 r1 (fun p => os (p1_product p)));
+    ("p2_product", grun1 r2 (fun p => os (p2_product O p)));
+    ("p3_product", grun1 r3 (fun p => os (p3_product O p)));
+    ("p1_from_value", grun1 rs (fun s => op1 (p1_from_value s)));
+    ("p2_from_value", grun1 rs (fun s => op2 (p2_from_value s)));
+    ("p3_from_value", grun1 rs (fun s => op3 (p3_from_value s)));
+    ("p1_midpoint", grun2 r1 r1 (fun p q => op1 (p1_midpoint O p q)));
+    ("p2_midpoint", grun2 r2 r2 (fun p q => op2 (p2_midpoint O p q)));
+    ("p3_midpoint", grun2 r3 r3 (fun p q => op3 (p3_midpoint O p q)));
+    ("p1_centroid", grun1 (all r1) (fun ps => op1 (p1_centroid_len O ps)));
+    ("p2_centroid", grun1 (all r2) (fun ps => op2 (p2_centroid_len O ps)));
+    ("p3_centroid", grun1 (all r3) (fun ps => op3 (p3_centroid_len O ps)));
+    ("p1_distance2", grun2 r1 r1 (fun p q => os (p1_distance2 O p q)));
+    ("p2_distance2", grun2 r2 r2 (fun p q => os (p2_distance2 O p q)));
+    ("p3_distance2", grun2 r3 r3 (fun p q => os (p3_distance2 O p q)));
+    ("p3_to_homogeneous", grun1 r3 (fun p => ov4 (p3_to_homogeneous O p)));
+    ("p3_from_homogeneous", grun1 v4 (fun v => op3 (p3_from_homogeneous O v)))
   ].
 End Tab.
 
 Definition run_c12 : runner := fun f _ args =>
   match f with
   | String "z"%char (String ":"%char g) =>
-      match dispatch (tab_c12 OpsZ vz) g with Some h => h (map qc_Z args) | None => VBad end
-  | _ => match dispatch (tab_c12 OpsQ vq) f with Some h => h args | None => VBad end
+      match dispatch (ztab (tab_c12 OpsZ)) g with Some h => h (map qc_Z args) | None => VBad end
+  | _ => match dispatch (qtab (tab_c12 OpsQ)) f with Some h => h args | None => VBad end
   end.
